@@ -155,6 +155,8 @@ def innermost_repo_frame(tb):
     """(file, function) of the innermost traceback frame located in the code under test, or None."""
     found = None
     for fs in traceback.extract_tb(tb):
+        if not os.path.isabs(fs.filename):
+            continue
         fn = os.path.abspath(fs.filename)
         if fn.startswith(REPO + os.sep):
             found = (os.path.relpath(fn, REPO), fs.name)
@@ -165,8 +167,10 @@ def innermost_is_harness(tb):
     frames = traceback.extract_tb(tb)
     if not frames:
         return True
-    fn = os.path.abspath(frames[-1].filename)
-    return fn.startswith(VERIF + os.sep)
+    fn = frames[-1].filename
+    if not os.path.isabs(fn):           # frames of compiled extensions carry relative source names ('src/lxml/etree.pyx'): a dependency, not the harness
+        return False
+    return os.path.abspath(fn).startswith(VERIF + os.sep)
 
 
 def guarded_check(mod, case, ctx):
